@@ -590,6 +590,18 @@ private:
         J.attribute("k", "pre");
         J.attribute("b", (int64_t)It->second.first);
         J.attribute("i", (int64_t)It->second.second);
+        auto Ms = coveringMacros(S);
+        for (auto &I : Inherited)
+          if (std::find(Ms.begin(), Ms.end(), I) == Ms.end())
+            Ms.push_back(I);
+        if (!Ms.empty()) {
+          J.attributeBegin("m");
+          J.arrayBegin();
+          for (auto &M : Ms)
+            J.value(M);
+          J.arrayEnd();
+          J.attributeEnd();
+        }
         J.objectEnd();
         return;
       }
